@@ -250,8 +250,12 @@ class ContentComparer:
                             line, col = l10nent.position(pos)
                         else:
                             line, col = l10nent.value_position(pos)
-                        # skip error entities when merging
-                        if tp == "error" and merge_file is not None:
+                        # skip error entities when merging, each of them once
+                        if (
+                            tp == "error"
+                            and merge_file is not None
+                            and l10nent not in skips
+                        ):
                             skips.append(l10nent)
                         self.observers.notify(
                             tp,
